@@ -189,6 +189,10 @@ pub fn catalogue() -> Vec<Problem> {
         Problem { name: "rest-at-origin", blocks: vec![Rest], rotated: false, u0: vec![0.0] },
         Problem { name: "decay-at-origin", blocks: vec![Lin(-2.0)], rotated: false, u0: vec![0.0] },
         Problem { name: "oscillator-at-origin", blocks: vec![Osc(1.0)], rotated: false, u0: vec![0.0, 0.0] },
+        // fast time scales: the steps the methods need are far below 1e-3 in absolute terms (a step compared with a
+        // quantity of another unit - the tolerance, 1 - shows only here)
+        Problem { name: "fast:lin+40", blocks: vec![Lin(40.0)], rotated: false, u0: vec![1.0] },
+        Problem { name: "fast:osc30", blocks: vec![Osc(30.0)], rotated: false, u0: vec![1.0, 0.0] },
         Problem { name: "bernoulli", blocks: vec![Bernoulli], rotated: false, u0: vec![1.0] },
         Problem { name: "osc1", blocks: vec![Osc(1.0)], rotated: false, u0: vec![1.0, 0.0] },
         // unrotated direct sums: the components have very different (or exactly zero) local errors, so an error
